@@ -695,6 +695,11 @@ def _work(st, batch):
         elif "ok" not in h.json("parse", ["exec", 0, "nodump"], text):
             res.counters["base program not accepted (C01's business), no edits applied"] += 1
             continue
+        elif reference_rejects(text):
+            # then the reference's verdict on an edited text says nothing about the edit (e.g. a file with a BOM and a
+            # coding cookie, which only the reference refuses)
+            res.counters["base program not accepted by the reference, no edits applied"] += 1
+            continue
         else:
             sites = token_edits(text, rng, 2) + indentation_edits(text, rng, 2) + ast_edits(text, rng, 2)
         for s in sites:
